@@ -10,11 +10,10 @@ from fractions import Fraction
 from harness.lib.group_fakeclient import GroupWorld, canon_model_st, show_frac
 
 DEFAULT_CFG = (1000, 100, 10000, 5000)
-# Mostly dyadic values (x/1000.0 and every sum of them is exact in binary floating point); with the
-# source's defaults (100 ms) Twisted's LoopingCall can see `runningFor % interval` one ulp below the
-# interval and schedule a tick "now" - a float artefact that the exact-time model does not have:
-# `generate` truncates a scenario at such a step (counted as `float_artefact`).
-CFGS = [DEFAULT_CFG, DEFAULT_CFG, (1000, 125, 10000, 5000), (1000, 125, 10000, 5000), (500, 125, 2000, 1000), (1000, 125, 8000, 250), (3000, 0, 7000, 2500), (125, 125, 125, 5000)]
+# With non-dyadic values (the source's default 100 ms) Twisted's LoopingCall can see `runningFor % interval`
+# one ulp below the interval and schedule a tick "now".  The model takes what `_scheduleFrom` computed as an
+# external answer (`fire <id> <delay>`), so such scenarios are followed exactly (counted as `float_artefact`).
+CFGS = [DEFAULT_CFG, DEFAULT_CFG, DEFAULT_CFG, (1000, 125, 10000, 5000), (500, 50, 2000, 1000), (1000, 100, 10000, 300), (3000, 0, 7000, 2500), (100, 100, 100, 5000)]
 
 ERR_KINDS = [
     "rebalanceInProgress", "notCoordinator", "coordinatorNotAvailable", "coordinatorLoadInProgress", "illegalGeneration",
@@ -119,6 +118,8 @@ def choose(rng, gs, world, p_ok, p_stop, p_cerr):
             return ["consumerErr %d %s" % (rng.choice(e["cerr"]), k)]
     elif r < p_stop + p_cerr + 0.01:
         return ["start"]  # RestartError, or a restart after stop
+    elif r < p_stop + p_cerr + 0.025 and e["quirk"]:
+        return ["consumerQuirk %d %s" % (rng.choice(e["quirk"]), rng.choice(["raises", "fails"]))]
     if not acts:
         return None
     a = rng.choice(acts)
@@ -140,7 +141,7 @@ def choose(rng, gs, world, p_ok, p_stop, p_cerr):
 
 def run_step(world, ev):
     obs = world.apply(ev)
-    return {"ev": ev, "obs": obs, "snap": world.snap(), "st": world.st()}
+    return {"ev": world.last_event, "obs": obs, "snap": world.snap(), "st": world.st()}
 
 
 def generate(rng, max_len, cfg=None, p_ok=None, p_stop=None, p_cerr=None, prefix=None):
@@ -156,15 +157,14 @@ def generate(rng, max_len, cfg=None, p_ok=None, p_stop=None, p_cerr=None, prefix
     try:
         for ev in prefix or []:
             steps.append(run_step(world, ev))
-        while len(steps) < max_len and not artefact:
+        while len(steps) < max_len:
             evs = choose(rng, gs, world, p_ok, p_stop, p_cerr)
             if evs is None:
                 break
             for ev in evs:
                 st = run_step(world, ev)
                 if cfg[3] != 0 and any(o.startswith("setTimer ") and o.endswith(" hb 0") for o in st["obs"]):
-                    artefact = True  # LoopingCall float artefact (see CFGS): drop this step and stop
-                    break
+                    artefact = True  # LoopingCall float artefact: the model follows it (external `hbNext`)
                 steps.append(st)
     finally:
         world.close()
